@@ -157,6 +157,7 @@ func checkC11(w *World, r *Report) {
 	checkNoWritesUpTheChain(w, r)
 	checkParsedBindingsKept(w, r)
 	checkTagTextConsumed(w, r, "R11.12")
+	checkLocalsBeforeGlobals(w, r)
 
 	// ---- R11.2 / R11.3 in IncludeNode.Render and its parts (unexported helpers with that one call
 	// site; flags may travel in a local struct of options and be tested by predicate helpers)
@@ -1266,4 +1267,54 @@ func checkParsedBindingsKept(w *World, r *Report) {
 		})
 	}
 	r.floor("updates of tables of parsed expressions in the parser", n, 1)
+}
+
+// checkLocalsBeforeGlobals — R11.13: a variable bound in the context wins over a global of the
+// same name.  In every function that looks a name up in the environment's globals, a lookup of the
+// same name in the context's own variables comes first — it dominates the globals lookup.  `with`
+// variables of an include, macro parameters and loop variables are such bindings: asked after the
+// globals, a `site` passed to an include is hidden by the global `site`.
+func checkLocalsBeforeGlobals(w *World, r *Report) {
+	n := 0
+	for _, fn := range w.pkgFuncs() {
+		if fn.Signature.Recv() == nil || !isNamed(fn.Signature.Recv().Type(), twigPath, "RenderContext") {
+			continue
+		}
+		instrsOf(fn, func(in ssa.Instruction) {
+			gl, ok := in.(*ssa.Lookup)
+			if !ok {
+				return
+			}
+			if _, ok := fieldLoad(gl.X, "Environment", "globals"); !ok {
+				return
+			}
+			if _, isParam := unspill(gl.Index).(*ssa.Parameter); !isParam {
+				return
+			}
+			n++
+			found := false
+			instrsOf(fn, func(in2 ssa.Instruction) {
+				ll, ok := in2.(*ssa.Lookup)
+				if !ok || found {
+					return
+				}
+				if _, ok := fieldLoad(ll.X, "RenderContext", "context"); !ok {
+					return
+				}
+				if !sameValue(unspill(ll.Index), unspill(gl.Index)) {
+					return
+				}
+				if ll.Block() == gl.Block() && instrIndex(ll) < instrIndex(gl) || ll.Block() != gl.Block() && ll.Block().Dominates(gl.Block()) {
+					found = true
+				}
+			})
+			construct := "the context's own variables are asked before the globals"
+			if found {
+				r.ok("R11.13", ssaName(fn), construct, w.posOf(gl.Pos()), "a lookup of the same name in RenderContext.context dominates the globals lookup", true)
+			} else {
+				r.bad("R11.13", ssaName(fn), construct, w.posOf(gl.Pos()), "the globals are consulted without the context's own variables having been asked first: a variable handed to an include with `with`, a macro parameter or a loop variable named like a global is hidden by the global")
+			}
+		})
+	}
+	r.floor("lookups of a name in the globals", n, 1)
 }
